@@ -384,7 +384,11 @@ class NameBinding(Binding):
             elif isinstance(node, ast.ExceptHandler):
                 node.name = new_name
             elif isinstance(node, (ast.Global, ast.Nonlocal)):
-                node.names = [new_name if n == self._name else n for n in node.names]
+                # Rename one mention only: another name declared by this statement may already have been renamed to our old name
+                names = list(node.names)
+                if self._name in names:
+                    names[names.index(self._name)] = new_name
+                node.names = names
             elif isinstance(node, ast.arguments):
 
                 rename_vararg = (node.vararg == self._name) and not getattr(node, 'vararg_renamed', False)
